@@ -19,10 +19,14 @@
 //	real install      a real action.Install against the simulated API server (trees with a disabled
 //	                  dependency): no CustomResourceDefinition of a disabled chart is POSTed, those of
 //	                  the enabled charts are (positive control), judged on the request log
+//	sibling tables    (sibling.go) a sibling's top-level `tags:` table / keys named like a cousin's condition
+//	                  path, in its values.yaml or sections: rendered with and without them, everything
+//	                  outside that sibling must be identical (864 rows, exhaustive; isolation only)
 //	isolation         re-render with only one sibling's section perturbed: nobody outside that
 //	                  subtree (ancestors: outside the section) may print anything different
 //
-// Don't-care zones: import-values (excluded); tags for nested levels (only set at the root); nulls
+// Don't-care zones: import-values (excluded); tags for nested levels (only set at the root; what a
+// chart's own top-level tags table does to its own dependencies is never judged); nulls
 // and type flips inside `global` (not generated: "ancestor wins" is not spelled out for them);
 // that an enabled dependency's schema violation IS rejected (C14 owns it; counted only); the parent
 // seeing its children's coalesced sections (documented). Unlisted subcharts (present in charts/ but
@@ -79,6 +83,9 @@ func genCases(seed int64, tier string) []core.Case {
 		hi := min(lo+476, nRows3)
 		out = append(out, core.Case{ID: fmt.Sprintf("table3-%d", lo), Data: core.J(caseData{Stratum: "table3", Lo: lo, Hi: hi, Only: -1})})
 	}
+	for lo := 0; lo < nSibRows; lo += 432 {
+		out = append(out, core.Case{ID: fmt.Sprintf("sibling-tables-%d", lo), Data: core.J(caseData{Stratum: "sibling-tables", Lo: lo, Hi: min(lo+432, nSibRows), Only: -1})})
+	}
 	nt, per, nu := 16, 100, 4
 	if tier == "thorough" {
 		nt, per, nu = 160, 400, 16
@@ -104,6 +111,13 @@ func run(c core.Case, verbose bool) core.Result {
 				continue
 			}
 			checkTree(&res, table1Input(lo), lo, verbose)
+		}
+	case "sibling-tables":
+		for r := d.Lo; r < d.Hi; r++ {
+			if d.Only >= 0 && d.Only != r {
+				continue
+			}
+			checkSibling(&res, r, verbose)
 		}
 	case "table2", "table3":
 		for r := d.Lo; r < d.Hi; r++ {
@@ -151,6 +165,8 @@ func post(a *core.Agg) string {
 		"truth_table_rows_table1":                          int64(nRows1),
 		"truth_table_rows_table2":                          int64(nRows2),
 		"truth_table_rows_table3":                          int64(nRows3),
+		"sibling_table_rows":                               int64(nSibRows),
+		"sibling_isolation_pairs_compared":                 int64(nSibRows),
 		"instances_four_charts_deep":                       1000,
 		"probes_parsed":                                    20000,
 		"sentinel_leaves_checked":                          20000,
